@@ -30,8 +30,9 @@ def S(durs, lt=None, col=None, coil=None, sp=(1, 1), loops=0, start=1, sync=0, m
                 manual=manual, prio=prio, key=key, blockq=blockq, pool=pool, via=via, form=form, tok=tok)
 
 
-def CFG(i, unit, *slots):
-    return dict(id=i, unit=unit, sh=list(slots))
+def CFG(i, unit, *slots, fade=0):
+    """A scenario: unit length in ms, one or two show slots, default fade of light l2 in units."""
+    return dict(id=i, unit=unit, sh=list(slots), fade=fade)
 
 
 TABLE = [
@@ -58,12 +59,17 @@ TABLE = [
     CFG(16, 250, S([2], loops=1, blockq=True, pool=True, sync=2, prio=4, key='a')),
     # --- coils enabled by shows
     CFG(17, 100, S([1, 2, 1], coil=[1, 0, 0], loops=0)),
+    # --- a light with a default fade: fade-in of steps, fade-out entries left by the stop
+    CFG(18, 100, S([2, 3], lt=[2, 2], loops=1), fade=2),
+    CFG(19, 100, S([3, 1], lt=[2, 1], loops=-1, prio=1, key='a'), S([2, 2], lt=[2, 2], col=[3, 4], loops=0, prio=6, key='b'), fade=1),
+    # --- two shows holding the same coil
+    CFG(20, 100, S([1, 2], coil=[1, 0], loops=-1, prio=1, key='a'), S([2, 1], lt=[2, 2], coil=[0, 1], loops=0, prio=2, key='b')),
 ]
 CFGS = {c['id']: c for c in TABLE}
 
 
 def cfg_rec(c):
-    return {'id': c['id'], 'sh': [{k: s[k] for k in SLOT_KEYS} for s in c['sh']]}
+    return {'id': c['id'], 'fade': c['fade'], 'sh': [{k: s[k] for k in SLOT_KEYS} for s in c['sh']]}
 
 
 def show_name(cid, sh):
@@ -243,6 +249,8 @@ def _cleanup(h):
     for p in _H['proxies']:
         if p.state == 'pending' and not p.rs.stopped:
             p.rs.stop()
+    for p in _H['proxies']:
+        p.cancel()          # timers of shows that are over (left by the requests of the odd batch)
     del _H['rs'][:]
     del _H['proxies'][:]
     m.show_player.instances['_global']['show_player'].clear()
@@ -281,7 +289,7 @@ def _exec_all(mdir, cid, sched):
     for i, ln in enumerate(lines):
         ln['ref'] = [refs[s][i][0] for s in range(nsl)]
         ln['refco'] = [refs[s][i][1] for s in range(nsl)]
-    return {'cfg': cfg_rec(c), 'ev': lines, '_sched': eff}
+    return {'cfg': cfg_rec(c), 'ev': lines, '_sched': eff, '_notes': _H.get('notes', [])}
 
 
 def _exec(mdir, cid, sched, skip, dynamic):
@@ -305,6 +313,11 @@ def _exec(mdir, cid, sched, skip, dynamic):
     repl = [False] * (nsl + 1)
     qd = []
     lights = [m.lights['l%d' % i] for i in range(1, NL + 1)]
+    lights[0].default_fade_ms = 0
+    lights[1].default_fade_ms = c['fade'] * c['unit']
+    notes = []
+    if not skip:
+        _H['notes'] = notes
     coil = m.coils['c1']
     inst = m.show_player.instances['_global']['show_player']
 
@@ -346,7 +359,8 @@ def _exec(mdir, cid, sched, skip, dynamic):
                 for li, lt in enumerate(lights, 1):
                     for e in lt.stack:
                         if e.key == key:
-                            own.append([li, int(e.priority), tick(e.start_time), colidx(e.dest_color)])
+                            own.append([li, int(e.priority), tick(e.start_time), colidx(e.dest_color),
+                                        tick(e.dest_time) if e.dest_time else 0])
             Sx.append({'steps': steps, 'ev': evs, 'sched': sched_t, 'own': own})
         del log[:]
         del qd[:]
@@ -366,6 +380,10 @@ def _exec(mdir, cid, sched, skip, dynamic):
         kn = key_name(cid, sc)
         player = sc['via'] == 'player'
         r = rs[sh]
+        if op != 'play' and r is not None and r.stopped:
+            notes.append([len(lines) + 1, 'over'])          # a request to a show that is over
+        elif op == 'resume' and pending(r):
+            notes.append([len(lines) + 1, 'resume-armed'])  # resume to a show that is not paused
         if op == 'play':
             for o in range(1, nsl + 1):
                 if o != sh and c['sh'][o - 1]['key'] == sc['key'] and rs[o] is not None and not rs[o].stopped:
@@ -452,6 +470,7 @@ CONSTANTS
   AdvN = %s
   BackN = %s
   NL = 2
+  OddOps = %s
   Deviations = {}
 %sCHECK_DEADLOCK FALSE
 """
@@ -468,9 +487,11 @@ CONSTANTS
   AdvN = {}
   BackN = {}
   NL = 2
+  OddOps = TRUE
   Deviations = %s
 INVARIANT Reporter
-INVARIANT OnSchedule
+%s"""
+MONITORS = """INVARIANT OnSchedule
 INVARIANT NeverEarly
 INVARIANT EventsOnce
 INVARIANT CleanAfterStop
@@ -479,6 +500,11 @@ PROPERTY StartStep
 PROPERTY QueueReleasedAtEnd
 CHECK_DEADLOCK FALSE
 """
+
+
+def trace_cfg(deviations=(), monitors=True):
+    dev = '{' + ', '.join('"%s"' % d for d in deviations) + '}'
+    return TRACE_CFG % (dev, MONITORS if monitors else 'CHECK_DEADLOCK FALSE\n')
 
 
 def handmade():
@@ -504,49 +530,111 @@ def handmade():
     ]
 
 
+def handmade_odd():
+    P = lambda sh: {'op': 'play', 'sh': sh}
+    A = {'op': 'adv'}
+    return [
+        # requests to a show that has completed by itself
+        (1, [P(1), A, A, A, A, {'op': 'advance', 'sh': 1, 'n': 1}, A, A]),
+        (1, [P(1), A, A, A, A, {'op': 'step_back', 'sh': 1, 'n': 1}, A, A, A, A]),
+        (9, [P(1), A, A, A, {'op': 'resume', 'sh': 1}, A]),
+        # resume to a show that is not paused, then stop it
+        (12, [P(1), A, {'op': 'resume', 'sh': 1}, A, A, {'op': 'stop', 'sh': 1}, A, A, A]),
+        # one of two shows holding the coil ends
+        (20, [P(1), P(2), A, A, A, A, A]),
+    ]
+
+
+FINDINGS = {
+    'over': ('C17:control-after-end', 'a pause/resume/advance/step_back request reaching a show that has already completed '
+             '(show_player keeps the instance under its key) runs _run_next_step on the stopped show: completed is posted '
+             'again, or steps are executed again and their lights are never removed'),
+    'resume-armed': ('C17:resume-while-running', 'resume() on a show that is not paused does not cancel the pending timer: '
+                     'two timer chains run, only one is cancelled by stop(), the other keeps executing steps after the stop'),
+}
+
+
 def run(ctx):
     mdir = write_machine(ctx.scratch)
     wd = tlc.prepare(ctx.scratch, 'Shows', 'shows')
-    mc_ids = (1, 2, 4, 6, 10, 12, 14, 15) if ctx.quick else tuple(c['id'] for c in TABLE)
+    mc_ids = (1, 2, 4, 6, 10, 12, 14, 15, 18) if ctx.quick else tuple(c['id'] for c in TABLE)
     table = [c for c in TABLE if c['id'] in mc_ids]
     with open(wd + '/ShowsMC.tla', 'w') as f:
         f.write(mc_module(table))
-    bounds = (6, 3, '{2}', '{1, 2}', '{1}') if ctx.quick else (8, 4, '{1, 3}', '{1, 2, 3}', '{1, 2}')
+    bounds = (7, 4, '{2}', '{1, 2}', '{1}') if ctx.quick else (8, 4, '{1, 3}', '{1, 2, 3}', '{1, 2}')
     with open(wd + '/MC.cfg', 'w') as f:
-        f.write(MC_CFG % (bounds + (PROPS,)))
+        f.write(MC_CFG % (bounds + ('TRUE', PROPS)))
     r = tlc.expect_ok(tlc.check(wd, 'ShowsMC', 'MC.cfg', workers=8, timeout=1500), 'Shows design check')
     ctx.add_tlc('ShowsMC', r, {'configs': len(table), 'MaxTime': bounds[0], 'MaxOps': bounds[1], 'Lates': bounds[2],
                                'AdvN': bounds[3], 'BackN': bounds[4]})
     ctx.coverage['monitors'] += ['OnSchedule', 'NeverEarly', 'SyncOnGrid', 'EventsOnce', 'CleanAfterStop', 'LoopsAndCompletion',
-                                 'StartStep', 'PausedIsSilent', 'QueueReleasedAtEnd', 'Obs(steps, events, sched, own, colours, differential)']
+                                 'StartStep', 'PausedIsSilent', 'QueueReleasedAtEnd',
+                                 'Obs(steps, events, sched, own, colours, coil, differential)']
     with open(wd + '/ShowsMC.tla', 'w') as f:
         f.write(mc_module(TABLE))
-    with open(wd + '/Gen.cfg', 'w') as f:
-        f.write(MC_CFG % (24, 12, '{1, 2, 3}', '{1, 2, 3}', '{1, 2}', ''))
-    behs, _ = tlc.simulate(wd, 'ShowsMC', 'Gen.cfg', num=400 if ctx.quick else 6000, depth=30 if ctx.quick else 40,
-                           seed=ctx.seed)
-    jobs = [(mdir, b[0]['cfg']['id'], [s['act'] for s in b]) for b in behs]
-    jobs += [(mdir, cid, s) for cid, s in handmade()]
+    # schedules: the main batch issues requests only where the statement gives them an effect; the odd batch also
+    # sends requests to shows that are over and resume to shows that are not paused
+    jobs = []
+    for label, odd, num in (('Gen', 'FALSE', 400 if ctx.quick else 6000), ('GenOdd', 'TRUE', 100 if ctx.quick else 1500)):
+        with open(wd + '/%s.cfg' % label, 'w') as f:
+            f.write(MC_CFG % (24, 12, '{1, 2, 3}', '{1, 2, 3}', '{1, 2}', odd, ''))
+        behs, _ = tlc.simulate(wd, 'ShowsMC', label + '.cfg', num=num, depth=30 if ctx.quick else 40,
+                               seed=ctx.seed + (0 if odd == 'FALSE' else 1000))
+        jobs += [(mdir, b[0]['cfg']['id'], [s['act'] for s in b]) for b in behs]
+    jobs += [(mdir, cid, s) for cid, s in handmade() + handmade_odd()]
     traces = harness.pmap(exec_schedule, jobs, nproc=8, chunk=8)
     with open(wd + '/Trace.cfg', 'w') as f:
-        f.write(TRACE_CFG % '{}')
+        f.write(trace_cfg())
     v = tlc.validate_traces(wd, 'ShowsTrace', 'Trace.cfg', traces, workers=8)
     ctx.add_trace_verdict('ShowsTrace', v, len(traces))
     ctx.coverage['configs_exercised'] = sorted({j[1] for j in jobs})
     ctx.coverage['lines'] = sum(len(t['ev']) for t in traces)
     ctx.sample({'kind': 'show-trace', 'cfg': traces[0]['cfg'], 'trace': traces[0]['ev'][:8]})
-    for i, info in sorted(v.rejected.items()):
-        if info.get('line') is None:
+    # executions the statement does not explain: is it one of the code-as-is deviations?
+    rej = sorted(i for i, info in v.rejected.items() if info.get('line') is not None)
+    explained = {}
+    coilrej = [i for i in rej if any(1 in sc['coil'] for sc in traces[i]['cfg']['sh']) and len(traces[i]['cfg']['sh']) > 1]
+    if coilrej:
+        with open(wd + '/TraceDev.cfg', 'w') as f:
+            f.write(trace_cfg(('CoilSharedDisable',), monitors=False))
+        v2 = tlc.validate_traces(wd, 'ShowsTrace', 'TraceDev.cfg', [traces[i] for i in coilrej], workers=8, diagnose=False)
+        ctx.add_trace_verdict('ShowsTrace(Deviations={CoilSharedDisable})', v2, 0)
+        for k in v2.accepted:
+            explained[coilrej[k]] = ('C17:coil-shared-disable', 'a show that ends disables a coil that another running show has '
+                                     'enabled too (coil_player contexts are not counted): the coil is not left as it would be '
+                                     'had the show never run')
+    for i in rej:
+        info = v.rejected[i]
+        if i in explained:
             continue
+        for ln, kind in traces[i].get('_notes', []):
+            if ln == info['line']:
+                explained[i] = FINDINGS[kind]
+    for i in rej:
+        info = v.rejected[i]
         fe = info.get('failing_event') or {}
+        data = {'cid': jobs[i][1], 'sched': jobs[i][2], 'trace': traces[i], 'info': info}
+        if i in explained:
+            sig, what = explained[i]
+            ctx.violation(sig, '%s [cfg %s line %s: %s]' % (what, traces[i]['cfg']['id'], info['line'], _brief(fe)), data)
+            continue
         ctx.violation('C17:%s:%s' % (info.get('monitor') or 'step', fe.get('op', '?')),
                       'show execution not explained by Shows spec at line %s: %s (prev %s; cfg %s)%s' % (
                           info.get('line'), fe, info.get('prev_event'), traces[i]['cfg'],
-                          (' crash: ' + traces[i].get('_tb', '')) if fe.get('op') == 'crash' else ''),
-                      {'cid': jobs[i][1], 'sched': jobs[i][2], 'trace': traces[i], 'info': info})
+                          (' crash: ' + traces[i].get('_tb', '')) if fe.get('op') == 'crash' else ''), data)
+    ctx.coverage['rejected_by_signature'] = {}
+    for i in rej:
+        k = explained[i][0] if i in explained else 'unexplained'
+        ctx.coverage['rejected_by_signature'][k] = ctx.coverage['rejected_by_signature'].get(k, 0) + 1
     ctx.assumptions += ['virtual time (TimeTravelLoop); lateness injected by wrapping loop.call_at for RunningShow callbacks only',
                         'one abstract unit = 50..250 ms per scenario; lateness in whole units',
-                        'control requests are issued only to shows that have started and are not stopped/replaced; resume only when no timer is pending']
+                        'pause/advance/step_back/update are issued only to shows that have started; requests to shows waiting '
+                        'for their sync point are not generated',
+                        'mid-fade colours are not compared; colours and the differential run are compared when lights are at rest']
+
+
+def _brief(e):
+    return {k: e[k] for k in ('op', 'sh', 'n', 'k', 'S', 'lg', 'co') if k in e}
 
 
 def replay(ctx, data):
@@ -557,7 +645,7 @@ def replay(ctx, data):
         print('replay line:', ln)
     wd = tlc.prepare(ctx.scratch, 'Shows', 'shows')
     with open(wd + '/Trace.cfg', 'w') as f:
-        f.write(TRACE_CFG % '{}')
+        f.write(trace_cfg())
     v = tlc.validate_traces(wd, 'ShowsTrace', 'Trace.cfg', [tr], workers=2)
     for i, info in v.rejected.items():
-        ctx.violation(data['sig'], 'replayed: %s' % info, d)
+        ctx.violation(data['sig'], 'replayed: %s' % {k: x for k, x in info.items() if k != 'state'}, d)
